@@ -15,13 +15,13 @@ package rules
 import (
 	"bufio"
 	"context"
-	"encoding/json"
 	"errors"
 	"fmt"
 	"io"
 	"net"
 	"net/http"
 	"net/http/httptest"
+	"net/url"
 	"sort"
 	"strings"
 	"sync/atomic"
@@ -240,6 +240,7 @@ func c08Build(c c08Case) (rule.Executor, error) {
 type c08Server struct {
 	srv  *httptest.Server
 	exec atomic.Pointer[rule.Executor]
+	last atomic.Pointer[c08Out] // what the handler saw (kept in-process: JSON would mangle non-UTF-8 bytes)
 }
 
 func c08NewServer() *c08Server {
@@ -270,8 +271,8 @@ func c08NewServer() *c08Server {
 			out.Err = err.Error()
 		}
 
-		rw.Header().Set("Content-Type", "application/json")
-		json.NewEncoder(rw).Encode(out) //nolint:errcheck
+		s.last.Store(&out)
+		rw.WriteHeader(http.StatusOK)
 	}))
 
 	return s
@@ -290,6 +291,7 @@ func (s *c08Server) send(host, raw, query string) c08Out {
 		target += "?" + query
 	}
 
+	s.last.Store(nil)
 	fmt.Fprintf(conn, "GET %s HTTP/1.1\r\nHost: %s\r\nConnection: close\r\n\r\n", target, host)
 
 	resp, err := http.ReadResponse(bufio.NewReader(conn), nil)
@@ -299,16 +301,17 @@ func (s *c08Server) send(host, raw, query string) c08Out {
 	defer resp.Body.Close()
 
 	body, _ := io.ReadAll(resp.Body)
-	if resp.StatusCode == http.StatusBadRequest {
-		return c08Out{Kind: "badrequest"}
-	}
 
-	var out c08Out
-	if err := json.Unmarshal(body, &out); err != nil {
+	out := s.last.Load()
+
+	switch {
+	case resp.StatusCode == http.StatusBadRequest && out == nil:
+		return c08Out{Kind: "badrequest"}
+	case resp.StatusCode != http.StatusOK || out == nil:
 		return c08Out{Kind: "other", Err: fmt.Sprintf("status %d: %s", resp.StatusCode, body)}
 	}
 
-	return out
+	return *out
 }
 
 func c08Run(s *c08Server, c c08Case) (c08Obs, error) {
@@ -439,7 +442,158 @@ func c08Decoded(s string) string {
 	return sb.String()
 }
 
+// ---- C03-F5 avoidance --------------------------------------------------------------
+//
+// radixtree.findNode overwrites its captures with what a failed static child
+// returns (nil after a dead end), so the wildcard / catch-all alternatives of the
+// same node run with the earlier captures lost (finding C03-F5, owned by C03; it
+// can also panic in pathParamMatcher).  The C08 model abstracts the tree to a
+// segment-wise search, so requests that can reach that situation are kept out of
+// this stream by a criterion on the INPUT only (never on what the real code did):
+// the segment-wise search visits a level with at least one capture pending, where
+// a static child that the tree would enter exists (a literal with the same first
+// byte, or an empty literal), wildcard / catch-all alternatives exist, and the
+// literal branch is not certain to succeed.  This over-approximates C03-F5.
+
+type c08Cand struct {
+	pat    []c08Seg
+	params bool
+}
+
+const (
+	c08No = iota
+	c08Maybe
+	c08Yes
+)
+
+// c08Search mirrors the lookup order (static, wildcard, catch-all); it returns
+// whether the search certainly / possibly / never succeeds and whether the risky
+// situation is reachable.
+func c08Search(cs []c08Cand, segs []string, ncap int) (int, bool) {
+	if len(segs) == 0 {
+		res := c08No
+
+		for _, c := range cs {
+			if len(c.pat) == 0 {
+				if !c.params {
+					return c08Yes, false
+				}
+
+				res = c08Maybe
+			}
+		}
+
+		return res, false
+	}
+
+	s := segs[0]
+
+	var lits, wilds, alls []c08Cand
+
+	plausible := false
+
+	for _, c := range cs {
+		if len(c.pat) == 0 {
+			continue
+		}
+
+		switch h := c.pat[0]; h.K {
+		case "wild":
+			wilds = append(wilds, c08Cand{c.pat[1:], c.params})
+		case "all":
+			if len(c.pat) == 1 {
+				alls = append(alls, c08Cand{nil, c.params})
+			}
+		default:
+			if h.V == "" || s != "" && h.V[0] == s[0] {
+				plausible = true
+			}
+
+			if h.V == s {
+				lits = append(lits, c08Cand{c.pat[1:], c.params})
+			}
+		}
+	}
+
+	res, risky := c08Search(lits, segs[1:], ncap)
+	if res == c08Yes {
+		return res, risky
+	}
+
+	if ncap > 0 && plausible && (len(wilds) > 0 || len(alls) > 0) {
+		risky = true
+	}
+
+	if s != "" && len(wilds) > 0 {
+		r2, k2 := c08Search(wilds, segs[1:], ncap+1)
+		risky = risky || k2
+
+		if r2 == c08Yes {
+			return r2, risky
+		}
+
+		if r2 > res {
+			res = r2
+		}
+	}
+
+	if strings.Join(segs, "/") != "" {
+		for _, c := range alls {
+			if !c.params {
+				return c08Yes, risky
+			}
+
+			res = c08Maybe
+		}
+	}
+
+	return res, risky
+}
+
+// c08LookupPath is the path the repository looks up for a request target (the
+// escaped path of the parsed URL), "" if the target does not parse.
+func c08LookupPath(raw string) string {
+	u, err := url.ParseRequestURI(raw)
+	if err != nil {
+		return ""
+	}
+
+	return u.EscapedPath()
+}
+
+func c08Risky(c c08Case) bool {
+	var cs []c08Cand
+
+	for _, r := range c.Rules {
+		for _, rt := range r.Routes {
+			cs = append(cs, c08Cand{rt.Pat, len(rt.Params) > 0})
+		}
+	}
+
+	for _, raw := range []string{c.Raw, c.Raw2} {
+		p := c08LookupPath(raw)
+		if !strings.HasPrefix(p, "/") {
+			continue
+		}
+
+		if _, risky := c08Search(cs, strings.Split(p[1:], "/"), 0); risky {
+			return true
+		}
+	}
+
+	return false
+}
+
+// c08Gen draws cases until one is outside the domain of C03-F5 (deterministic per fork).
 func c08Gen(r *vf.Rand) c08Case {
+	for {
+		if c := c08Gen1(r); !c08Risky(c) {
+			return c
+		}
+	}
+}
+
+func c08Gen1(r *vf.Rand) c08Case {
 	c := c08Case{Host: "h.example.com", Default: r.Chance(40)}
 
 	// a base request: 1..4 segments, literal words and values
